@@ -41,7 +41,6 @@ func init() { commands["subview"] = runSubview }
 
 const svMarker = "TOPSECRET"
 
-var svMarkerHex = hex.EncodeToString([]byte(svMarker))
 var svSecretNameHex = hex.EncodeToString([]byte("SECRET"))
 
 type svView struct {
@@ -185,15 +184,32 @@ func svApply(v avfs.VFS, f avfs.File, t []string) (res string, nv avfs.VFS, nf a
 	return
 }
 
-func svSecretLines(es []snapEntry) string {
+// the secrets that lie outside the directory of a view (all of them for a view on a removed directory)
+func svOutside(v *svView, p string) bool {
+	return v.detached || !(p == v.dir || strings.HasPrefix(p, v.dir+"/"))
+}
+
+func svSecretLines(es []snapEntry, v *svView) string {
 	var sb strings.Builder
 	for _, e := range es {
-		if strings.HasPrefix(e.path, "/SECRET") {
+		if strings.HasPrefix(e.path, "/SECRET") && svOutside(v, e.path) {
 			sb.WriteString(e.line)
 			sb.WriteByte('\n')
 		}
 	}
 	return sb.String()
+}
+
+// contents of the planted secret files, by path
+var svSecretData = map[string]string{"/SECRET1": svMarker + "-1", "/SECRETD/f": svMarker + "-D"}
+
+func svLeaks(v *svView, res string) bool {
+	for p, d := range svSecretData {
+		if svOutside(v, p) && strings.Contains(res, hex.EncodeToString([]byte(d))) {
+			return true
+		}
+	}
+	return false
 }
 
 func (w *svWorld) showViews() string {
@@ -333,7 +349,7 @@ func (w *svWorld) step(t []string) (out string, stop bool) {
 		ps = append(ps, p)
 		vas = append(vas, viewAbs(v.vfs, p))
 	}
-	secretBefore := svSecretLines(w.snapA)
+	secretBefore := svSecretLines(w.snapA, v)
 	user, umask := v.vfs.User(), v.vfs.UMask()
 	searchOK := !v.detached && svCanSearch(w.a, user, v.dir)
 
@@ -416,13 +432,13 @@ func (w *svWorld) step(t []string) (out string, stop bool) {
 				break
 			}
 		}
-		if strings.Contains(resA, svMarkerHex) {
+		if svLeaks(v, resA) {
 			cres = "LEAK:" + notok(resA)
 		} else if strings.HasPrefix(resA, "IS ") && strings.Contains(resA, svSecretNameHex) && !v.detached && !w.secretNameInside(v.dir) {
 			// a listing through the view shows a SECRET* name although no entry of that name exists below
 			// the view's directory (one may: an escape attempt that was confined created it there)
 			cres = "LEAK-LIST:" + notok(resA)
-		} else if after := svSecretLines(w.snapA); after != secretBefore {
+		} else if after := svSecretLines(w.snapA, v); after != secretBefore {
 			cres = "MOD:" + tok(secretBefore) + ">" + tok(after)
 		}
 	}
